@@ -314,6 +314,10 @@ def layer_closure(world):
 
 def argv(opts, path, list_tests=False):
     a = ['selw-prog', '--path', path]
+    if opts.get('dup_path') == 'nested':
+        a += ['--path', os.path.join(path, 'pa')]        # a search path lying inside another one: its files are found once
+    elif opts.get('dup_path'):
+        a += ['--path', path, '--test-path', path]      # the same directory given again (and as a --test-path): found once
     for p in opts.get('t') or []:
         a += ['-t', p]
     for p in opts.get('m') or []:
